@@ -321,6 +321,51 @@ def simulator_obligations(tier='quick', seed=0):
         sim = EoN.discrete_SIR(G, test_transmission=lambda u, v: True, initial_infecteds=one, return_full_data=True)
         res['discrete_SIR(bare node)'] = {u: sim.node_history(u) for u in G}
         return res
+    # a table-driven scenario with an exact tie: the transmission u -> v arrives at the very instant v recovers, and u and v were infected
+    # at the same instant by w (which of the two is processed first depends on insertion order; the outcome must not)
+    REC = {0: 10.0, 1: 4.0, 2: 2.0, 3: 1.5, 4: 1.5}
+    TRANS = {(0, 1): [1.0], (0, 2): [1.0], (1, 2): [2.0], (2, 3): [0.5], (3, 4): [0.25]}
+    Gt = nx.Graph(); Gt.add_nodes_from(range(5)); Gt.add_edges_from([(0, 1), (0, 2), (1, 2), (2, 3), (3, 4)])
+
+    def tie_run(H, inv, seed_node):
+        sim = EoN.fast_nonMarkov_SIS(H, trans_time_fxn=lambda a, b, d: list(TRANS.get((inv[a], inv[b]), [])), rec_time_fxn=lambda a: REC[inv[a]],
+                                      initial_infecteds=[seed_node], tmax=20, return_full_data=True)
+        return {inv[u]: sim.node_history(u) for u in H}
+    try:
+        ref_t = tie_run(Gt, {u: u for u in Gt}, 0)
+    except Exception as e:
+        ref_t = None
+        out.append(Ob('native:fast_nonMarkov_SIS(tie at the instant of recovery):relabelling-invariant', 'EoN/simulation.py:fast_nonMarkov_SIS', 'post', 'undecided',
+                      'native runs', 0.0, detail='%s: %s' % (type(e).__name__, str(e)[:150]), site='EoN/simulation.py:fast_nonMarkov_SIS', bounded='-', engine='E5-bounded',
+                      replay_note='reference run failed'))
+    if ref_t is not None:
+        t1 = time.time()
+        bad = None
+        nrel = 0
+        for sd in range(4 if tier == 'quick' else 10):
+            for rname, m, H in relabelings(Gt, tier, seed + sd):
+                nrel += 1
+                inv = {}
+                for u in Gt:
+                    inv[m[u]] = u
+                try:
+                    got = tie_run(H, inv, m[0])
+                except Exception as e:
+                    bad = '%s (%s, variant %d): %s: %s' % (rname, sd, nrel, type(e).__name__, str(e)[:120])
+                    break
+                for u in Gt:
+                    a, b = ref_t[u], got[u]
+                    if [float(x) for x in a[0]] != [float(x) for x in b[0]] or list(a[1]) != list(b[1]):
+                        bad = 'history of node %r: %s on the original graph, %s after %s (insertion order variant %d)' % (u, a, b, rname, sd)
+                        break
+                if bad:
+                    break
+            if bad:
+                break
+        out.append(Ob('native:fast_nonMarkov_SIS(tie at the instant of recovery):relabelling-invariant', 'EoN/simulation.py:fast_nonMarkov_SIS', 'post',
+                      'bounded-refuted' if bad else 'bounded-ok', backend='native runs with table-driven deterministic rules (CPython)', seconds=round(time.time() - t1, 3),
+                      detail=bad or '', site='EoN/simulation.py:fast_nonMarkov_SIS', bounded='one 5-node scenario, %d relabelled / re-ordered copies' % nrel,
+                      witness=dict(durations=REC, delays={str(k): v for k, v in TRANS.items()}, observed=bad) if bad else None, replayed=True if bad else None, engine='E5-bounded'))
     for gname, G in base_graphs(tier):
         nodes = list(G.nodes())
         ref = runs(G, [nodes[0]])
